@@ -82,6 +82,13 @@ Theorem C20_iso639 : forall l a more, length l = 3%nat -> is_bytes l ->
 Proof. exact iso639_c20. Qed.
 Print Assumptions C20_iso639.
 
+(* the same with ANY bytes after the first entry (e.g. a truncated second entry) *)
+Theorem C20_iso639_any_tail : forall l a rest, length l = 3%nat -> is_bytes l ->
+  PmtDesc.decode_iso639_language_code (PmtDesc.mk 0x0A (l ++ a :: rest)) = Ok l /\
+  PmtDesc.decode_iso639_audio_type (PmtDesc.mk 0x0A (l ++ a :: rest)) = Ok a.
+Proof. exact iso639_any_tail. Qed.
+Print Assumptions C20_iso639_any_tail.
+
 Theorem C20_ttml : forall l purpose suit rest, wf_ttml l purpose suit rest ->
   let d := PmtDesc.mk 0x7F (ser_ttml l purpose suit rest) in
   PmtDesc.decode_ttml_iso639_language_code d = Ok l /\ PmtDesc.decode_ttml_subtitle_purpose d = Ok purpose /\
@@ -129,6 +136,18 @@ Theorem C20_stream_without_descriptor : forall ds,
   (Forall (fun d => PmtDesc.tag d <> 0x7F) ds -> PmtDesc.is_ttml_subtitling ds = false).
 Proof. exact stream_without_descriptor. Qed.
 Print Assumptions C20_stream_without_descriptor.
+
+(* IsTTMLSubtitling holds exactly when some descriptor has tag 0x7F and descriptor_tag_extension 0x20 *)
+Theorem C20_stream_ttml_iff : forall ds,
+  PmtDesc.is_ttml_subtitling ds = true <->
+  exists d rest, In d ds /\ PmtDesc.tag d = 0x7F /\ PmtDesc.data d = 0x20 :: rest.
+Proof. exact stream_ttml_iff. Qed.
+Print Assumptions C20_stream_ttml_iff.
+
+(* a negative PID (the Go argument is an int) is in no PMT *)
+Theorem C20_pmt_lags_by_pid_negative : forall streams pid, (pid < 0)%Z -> StreamType.pmt_lags_by_pid streams pid = false.
+Proof. exact pmt_lags_negative. Qed.
+Print Assumptions C20_pmt_lags_by_pid_negative.
 
 (* F12 (DESIGN section 7): DecodeIso639AudioType as it stands in the pinned tree has no tag test and
    violates wrong_tag_neutral; the model above is the repaired function.  Replay: `st.desc 0 x00000001`. *)
